@@ -134,6 +134,7 @@ base64_encode_update (base64_ctx *x, void *vdst, int *dstlen,
     num_write = 0;
 
     if (srclen <= 0) {
+        *dstlen = 0;
         return (0);
     }
     /*  Encode leftover data if context buffer can be filled.
